@@ -1330,3 +1330,54 @@ Proof.
     apply IH. rewrite lookup_insert, H. reflexivity. }
   apply G. reflexivity.
 Qed.
+
+(* ================================================================== RFC 8259 alone is part of the documented language *)
+Lemma rfc_ws_jws w : rfc_ws w -> jws w.
+Proof. induction 1; [constructor|apply WS_rfc; assumption]. Qed.
+Lemma rfc_body_jbody b s : rfc_string_body b s -> jstring_body b s.
+Proof.
+  induction 1 as [|c t s _ N34 N92 _ IH|x b t s Hx _ IH|d n t s Hd NH NL _ IH|d1 hi d2 lo t s H1 Hh H2 Hl _ IH].
+  - constructor.
+  - apply B_raw; assumption.
+  - apply B_short; assumption.
+  - apply (B_unicode (92 :: 117 :: d) d n t s); [apply U_plain; exact Hd|exact NH|exact NL|exact IH].
+  - apply (B_pair (92 :: 117 :: d1) d1 hi (92 :: 117 :: d2) d2 lo t s); [apply U_plain; exact H1|exact Hh|apply U_plain; exact H2|exact Hl|exact IH].
+Qed.
+Lemma rfc_string_jstring t s : rfc_string t s -> jstring t s.
+Proof.
+  intros [b s0 Hb Hu]. pose proof (rfc_body_jbody b s0 Hb) as J. apply Str; [exact J|]. rewrite <- (body_utf8 b s0 J). exact Hu.
+Qed.
+Lemma rfc_key_jkey t k : rfc_key t k -> jkey t k.
+Proof. intros [w1 t0 k0 w2 H1 Hs H2]. apply Key; [apply rfc_ws_jws; exact H1|apply rfc_string_jstring; exact Hs|apply rfc_ws_jws; exact H2]. Qed.
+
+Scheme rfc_value_min := Minimality for rfc_value Sort Prop
+  with rfc_element_min := Minimality for rfc_element Sort Prop
+  with rfc_elements_min := Minimality for rfc_elements Sort Prop
+  with rfc_members_min := Minimality for rfc_members Sort Prop.
+Combined Scheme rfc_mutind from rfc_value_min, rfc_element_min, rfc_elements_min, rfc_members_min.
+
+Lemma rfc_included :
+  (forall t v, rfc_value t v -> jvalue t v) /\ (forall t v, rfc_element t v -> jelement t v) /\
+  (forall t l, rfc_elements t l -> jelements t l) /\ (forall t ms, rfc_members t ms -> jmembers t ms).
+Proof.
+  apply rfc_mutind; intros.
+  - constructor.
+  - constructor.
+  - constructor.
+  - apply V_number; assumption.
+  - apply V_string. apply rfc_string_jstring; assumption.
+  - apply V_empty_array. apply rfc_ws_jws; assumption.
+  - apply V_array; assumption.
+  - apply V_empty_object. apply rfc_ws_jws; assumption.
+  - apply V_object; assumption.
+  - apply Elem; [apply rfc_ws_jws; assumption|assumption|apply rfc_ws_jws; assumption].
+  - apply Es_one; assumption.
+  - apply Es_cons; assumption.
+  - apply Ms_one; [apply rfc_key_jkey; assumption|assumption].
+  - apply Ms_cons; [apply rfc_key_jkey; assumption|assumption|assumption].
+Qed.
+Theorem rfc_text_jtext t v : rfc_text t v -> jtext t v.
+Proof. apply (proj1 (proj2 rfc_included)). Qed.
+(* every RFC 8259 document is accepted and yields the value it denotes *)
+Theorem rfc_complete t v : rfc_text t v -> parse_value t = Ok v.
+Proof. intros H. apply grammar_complete, rfc_text_jtext, H. Qed.
